@@ -1,6 +1,7 @@
 """pyvc.ctx -- path context, exploration by replay, obligations."""
 from __future__ import annotations
 
+import os
 import time
 import z3
 
@@ -164,7 +165,9 @@ class Ctx:
             raise Infeasible()
         self.pc.append(b)
         self.pc_raw.append(raw)
-        self.solver.add(b)
+        # the *unsimplified* formula goes to the solver: z3's simplifier introduces internal
+        # partial functions (seq.nth_i / seq.nth_u) on which the seq solver answers `unknown`
+        self.solver.add(raw)
 
     def _check(self, extra):
         t0 = time.time()
@@ -182,8 +185,21 @@ class Ctx:
         got = self.ex.feas_cache.get(key)
         if got is None:
             g = self.guards
-            rt = self._check(z3.And(g + [cond]) if g else cond)
-            rf = self._check(z3.And(g + [z3.Not(cond)]) if g else z3.Not(cond))
+            ct = z3.And(g + [cond]) if g else cond
+            cf = z3.And(g + [z3.Not(cond)]) if g else z3.Not(cond)
+            # decide on the cone of influence of the condition: the rest of the (satisfiable) path
+            # condition shares no symbol with it
+            sl = z3.Solver()
+            sl.set("timeout", self.ex.feas_timeout_ms)
+            sl.add(cone_of_influence(self.pc_raw, ct))
+            t0 = time.time()
+            sl.push()
+            sl.add(ct)
+            rt = sl.check()
+            sl.pop()
+            sl.add(cf)
+            rf = sl.check()
+            self.ex.solver_secs += time.time() - t0
             got = (rt != z3.unsat, rf != z3.unsat)
             self.ex.feas_cache[key] = got
         return got
@@ -195,6 +211,7 @@ class Ctx:
             return True
         if z3.is_false(c):
             return False
+        c = cond
         ft, ff = self.feasible(c)
         if ft and ff:
             take = self.choose(2, "branch") == 0
@@ -223,20 +240,38 @@ class Ctx:
         self.qcount += 1
         vals = self.ex.feas_cache.get(key)
         if vals is None:
-            vals = []
-            self.solver.push()
-            while len(vals) <= limit:
-                r = self.solver.check()
-                if r != z3.sat:
-                    if r == z3.unknown:
-                        self.solver.pop()
-                        raise Unsupported(f"cannot enumerate {what}: solver unknown")
-                    break
-                v = self.solver.model().eval(s, model_completion=True).as_long()
-                vals.append(v)
-                self.solver.add(s != v)
-            self.solver.pop()
+            sl = z3.Solver()
+            sl.set("timeout", self.ex.feas_timeout_ms)
+            sl.add(cone_of_influence(self.pc_raw, s))
+            vals = self._enumerate(sl, s, limit)
+            if vals is None:
+                vals = self._enumerate(self.solver, s, limit)
+            if vals is None and os.environ.get("PYVC_DEBUG"):
+                import sys as _sys
+
+                print(f"--- concretize unknown for {s}: {self.solver.reason_unknown()}", file=_sys.stderr)
+                for p_ in self.pc_raw:
+                    print("  PC", str(p_)[:300].replace("\n", " "), file=_sys.stderr)
+            if vals is None:
+                # the full path condition is too hard for enumeration: enumerate under its
+                # arithmetic fragment only (a superset of the feasible values; infeasible forks
+                # die later)
+                rs = z3.Solver()
+                rs.set("timeout", self.ex.feas_timeout_ms)
+                fs, s2 = abstract_lengths(cone_of_influence(self.pc_raw, s), s)
+                memo, atoms = {}, {}
+                for f in fs:
+                    rs.add(abstract_non_arith(f, memo, atoms))
+                vals = self._enumerate(rs, s2, limit)
+                if vals is None:
+                    raise Unsupported(f"cannot enumerate {what}: solver unknown")
             if len(vals) > limit:
+                if os.environ.get("PYVC_DEBUG"):
+                    import sys as _sys
+
+                    print(f"--- too many values for {s}", file=_sys.stderr)
+                    for p_ in self.pc_raw:
+                        print("  PC", str(p_)[:300].replace("\n", " "), file=_sys.stderr)
                 raise Unsupported(f"too many concrete {what}s for {s}")
             vals.sort()
             self.ex.feas_cache[key] = vals
@@ -245,6 +280,23 @@ class Ctx:
         i = self.choose(len(vals), "concretize")
         self.assume(s == vals[i])
         return vals[i]
+
+    def _enumerate(self, solver, s, limit):
+        vals = []
+        solver.push()
+        try:
+            while len(vals) <= limit:
+                r = solver.check()
+                if r == z3.unknown:
+                    return None
+                if r != z3.sat:
+                    break
+                v = solver.model().eval(s, model_completion=True).as_long()
+                vals.append(v)
+                solver.add(s != v)
+        finally:
+            solver.pop()
+        return vals
 
     # ---- obligations
     def oblige(self, name, goal, kind="ensures", where="", bounded=None):
@@ -278,6 +330,9 @@ class Ctx:
                     ob.status, ob.solver = "discharged", "cvc5"
                 elif r2 == "sat":
                     ob.status, ob.solver = "refuted", "cvc5"
+                    from .solve import LAST_MODEL
+
+                    ob.model = LAST_MODEL[0]
             if ob.status == "unknown":
                 # counterexample search on a bounded instance: index-range quantifiers are
                 # expanded over ranges of size <= 2 (equivalent under the added range bound),
@@ -290,6 +345,13 @@ class Ctx:
             if ob.status == "unknown" and self.ex.on_unknown is not None:
                 self.ex.on_unknown(ob)
         ob.secs = time.time() - t0
+        if ob.status != "discharged" and os.environ.get("PYVC_DEBUG"):
+            import sys as _sys
+
+            print(f"--- {ob.name} {ob.status} by {ob.solver}\nGOAL {goal}", file=_sys.stderr)
+            for p_ in self.pc_raw:
+                print("  PC", str(p_)[:400].replace("\n", " "), file=_sys.stderr)
+            print("  MODEL", str(ob.model)[:1500], file=_sys.stderr)
         self.ex.solver_secs += ob.secs
         self.ex.obligations.append(ob)
         return ob.status == "discharged"
@@ -406,10 +468,145 @@ def bounded_refutation(pc_raw, goal, timeout_ms, k=2):
 
             r2, _ = cvc5_check(dump_smt2(fs + [ng] + bounds), timeout_s=max(10, timeout_ms // 1000))
             if r2 == "sat":
-                return "cvc5(bounded-instance)", None
+                from .solve import LAST_MODEL
+
+                return "cvc5(bounded-instance)", LAST_MODEL[0]
     except Exception:
         return None
     return None
+
+
+_sym_cache = {}
+
+
+def symbols_of(t):
+    """names of the uninterpreted constants / functions occurring in t"""
+    k = t.get_id()
+    got = _sym_cache.get(k)
+    if got is not None:
+        return got[1]
+    out = set()
+    work = [t]
+    seen = set()
+    while work:
+        x = work.pop()
+        i = x.get_id()
+        if i in seen:
+            continue
+        seen.add(i)
+        if z3.is_quantifier(x):
+            work.append(x.body())
+        elif z3.is_app(x):
+            if x.decl().kind() == z3.Z3_OP_UNINTERPRETED:
+                out.add(x.decl().name())
+            work.extend(x.children())
+    got = frozenset(out)
+    _sym_cache[k] = (t, got)  # the term is kept alive: z3 reuses ids of collected terms
+    return got
+
+
+def cone_of_influence(formulas, term):
+    """the formulas connected to `term` through shared symbols (transitively)"""
+    want = set(symbols_of(term))
+    syms = [symbols_of(f) for f in formulas]
+    chosen = [False] * len(formulas)
+    changed = True
+    while changed:
+        changed = False
+        for i, ss in enumerate(syms):
+            if not chosen[i] and ss & want:
+                chosen[i] = True
+                want |= ss
+                changed = True
+    return [f for f, c in zip(formulas, chosen) if c]
+
+
+def abstract_lengths(formulas, term):
+    """replace every Length(t) by a fresh non-negative Int constant (same constant for the same t):
+    a relaxation used only to enumerate candidate values"""
+    lens = {}
+    work = list(formulas) + [term]
+    seen = set()
+    while work:
+        x = work.pop()
+        i = x.get_id()
+        if i in seen:
+            continue
+        seen.add(i)
+        if z3.is_quantifier(x):
+            continue
+        if z3.is_app(x):
+            if x.decl().kind() == z3.Z3_OP_SEQ_LENGTH:
+                lens[i] = x
+            work.extend(x.children())
+    if not lens:
+        return list(formulas), term
+    pairs = [(t, z3.Int(f"len!{n}")) for n, t in enumerate(lens.values())]
+    out = [z3.substitute(f, *pairs) for f in formulas if not z3.is_quantifier(f)]
+    out += [v >= 0 for _, v in pairs]
+    return out, z3.substitute(term, *pairs)
+
+
+_BOOL_CONNECTIVES = (z3.Z3_OP_AND, z3.Z3_OP_OR, z3.Z3_OP_NOT, z3.Z3_OP_IMPLIES, z3.Z3_OP_XOR)
+
+
+def abstract_non_arith(f, memo, atoms):
+    """boolean abstraction: atoms that are not pure Int/Bool arithmetic become fresh Bool constants
+    (the same atom always the same constant).  A relaxation (more models), used for enumeration only."""
+    k = f.get_id()
+    if k in memo:
+        return memo[k][1]
+    if z3.is_quantifier(f):
+        r = z3.Bool(f"atom!{len(atoms)}")
+        atoms[k] = r
+    elif z3.is_app(f) and z3.is_bool(f):
+        dk = f.decl().kind()
+        kids = f.children()
+        if dk in _BOOL_CONNECTIVES or (dk in (z3.Z3_OP_ITE, z3.Z3_OP_EQ, z3.Z3_OP_DISTINCT) and kids and all(z3.is_bool(c) for c in kids)):
+            r = f.decl()(*[abstract_non_arith(c, memo, atoms) for c in kids])
+        elif dk == z3.Z3_OP_ITE:
+            r = z3.If(abstract_non_arith(kids[0], memo, atoms), abstract_non_arith(kids[1], memo, atoms), abstract_non_arith(kids[2], memo, atoms))
+        elif _is_arith_only(f):
+            r = f
+        else:
+            r = z3.Bool(f"atom!{len(atoms)}")
+            atoms[k] = r
+    else:
+        r = f
+    memo[k] = (f, r)
+    return r
+
+
+_arith_cache = {}
+
+
+def _is_arith_only(f):
+    """formula over Int/Bool terms only, quantifier free"""
+    k = f.get_id()
+    if k in _arith_cache:
+        return _arith_cache[k][1]
+    ok = True
+    work = [f]
+    seen = set()
+    while work:
+        t = work.pop()
+        i = t.get_id()
+        if i in seen:
+            continue
+        seen.add(i)
+        if z3.is_quantifier(t):
+            ok = False
+            break
+        sk = t.sort().kind()
+        if sk not in (z3.Z3_BOOL_SORT, z3.Z3_INT_SORT):
+            ok = False
+            break
+        if z3.is_app(t) and t.decl().kind() == z3.Z3_OP_UNINTERPRETED and t.num_args() > 0:
+            ok = False
+            break
+        work.extend(t.children())
+    _arith_cache[k] = (f, ok)
+    return ok
 
 
 def model_to_json(m):
